@@ -122,9 +122,10 @@ def rule_b(ctx):
     detail = ''
     ct = slots.RSocketClient.lookup('_current_transport')
     tattr = None
-    for n in walk_local(ct.node):
-        if isinstance(n, ast.Return) and isinstance(n.value, ast.Attribute):
-            tattr = n.value.attr
+    from ..astutil import returned_exprs
+    for v in returned_exprs(ct.node):
+        if isinstance(v, ast.Attribute):
+            tattr = v.attr
     for p, closes, connects in full:
         fresh = [e for e in p.events if e.kind == 'store' and e.data['target'][0] == 'attr' and
                  e.data['target'][2] == tattr]
